@@ -61,14 +61,6 @@ impl IntoMessage for EmitEvent {
     }
 }
 
-impl ServiceInfo {
-    // whether the service supports all-events subscriptions (a field of the opaque ServiceInfo)
-    pub uninterp spec fn spec_subscribe_all(self) -> Option<bool>;
-    #[verifier::external_body]
-    pub fn subscribe_all(self) -> (r: Option<bool>)
-        ensures r == self.spec_subscribe_all()
-    { unimplemented!() }
-}
 
 //@include _shared/registry_preamble_b.rs
 impl Broker {
